@@ -26,6 +26,8 @@ EVIDENCE = dict(
          "Hollow elements: every document of <= 3 (thorough 4) letters over {H1, H2, P, L(3), hollow H, hollow P, hollow L, "
          "hollow T, image without description, new page} for both chunkers and every configuration; also in the simulated and "
          "random documents. "
+         "Repeated texts: every document of <= 4 (thorough 5) letters over {G level 1/2 of a shared text, plain paragraph with "
+         "that text, G level 1/2 with a text of its own, P, new page} for the element chunker and every size configuration. "
          "Reuse: every history of 2-3 calls over two documents, and two goroutines, on ONE chunker object per configuration "
          "(documents sampled from the cases above: deep heading trees, oversize paragraphs, lists at section ends), each result "
          "compared with a fresh object's and judged by the contract. "
@@ -70,6 +72,13 @@ NOTES = """Interpretation choices (soundness first):
   elements standing directly before, between or after a chunk's units are admissible for its page range (their white space
   may be part of the chunk text).  For rag.DocumentChunker, Layout.Headings omits hollow headings (it is only read to
   recognise paragraphs that repeat a heading text; a blank entry would turn every blank paragraph into a heading).
+* Repeated texts (element path only): G = a heading given as a Paragraph element whose text Layout.Headings of ITS page lists
+  (the "heading-like paragraph" of rag.DocumentChunker), R = a plain paragraph; elements of one text class show the same
+  text on different pages (a contents page naming a section before / after the page with the real heading, the same title at
+  two levels).  The contract is unchanged: G opens a section at its level, R does not, every element is its own unit - the
+  k-th occurrence of a shared text in the chunk texts is the k-th element of the class.  A title that several elements share
+  cannot name one of them, so both the expected and the observed path show such an entry as -(100 + class) (NormPath).  Two
+  elements of one class on the same page are not generated: there the page's heading list cannot tell them apart.
 * Reuse (ChunkReuse.tla): one DocumentChunker / Chunker object per configuration chunks A, B, A ... (every history of 2-3
   calls over two documents) and A, B from two goroutines sharing it (6 rounds); every result must be identical to a fresh
   object's result for the same document (units, indices, ids, pages, paths, totals, title) and is judged by the chunking
@@ -206,6 +215,8 @@ def run(ctx):
                 "pdfgen": ex2.submit(emit, "Chunking_gen_pdf_quick.cfg" if q else "Chunking_gen_pdf_thorough.cfg"),
                 "pdfsim": ex2.submit(emit, "Chunking_sim_pdf.cfg", simulate=60 if q else 1500, depth=13),
                 "hflush": ex2.submit(emit, "Chunking_gen_hollow_flush.cfg"),
+                # repeated texts across pages: heading-like paragraphs and plain paragraphs with the same text
+                "repeat": ex2.submit(emit, "Chunking_gen_repeat_quick.cfg" if q else "Chunking_gen_repeat_thorough.cfg"),
                 "hist": ex2.submit(ctx.tlc, "ChunkReuseHist", "ChunkReuse_gen.cfg", workers=1, collect=True, count=False,
                                    timeout=3000, jvm=JVM_SMALL),
                 "sim": ex2.submit(emit, "Chunking_sim.cfg", simulate=150 if q else 4000, depth=13),
@@ -215,6 +226,11 @@ def run(ctx):
             hists = e["hist"].result()["cases"]
             hollow = e["hollow"].result()
             hollow["cases"] += e["hflush"].result()["cases"]
+            # two elements of one text class on the same page cannot be told apart by the layout's heading list
+            def _distinct_pages(c):
+                pgs = [x["pg"] for x in c["doc"] if x.get("t")]
+                return len(pgs) == len(set(pgs))
+            repeat = [c for c in e["repeat"].result()["cases"] if _distinct_pages(c)]
             if e["gap"] is not None:
                 gen["cases"] += e["gap"].result()["cases"]
         for f, (_, _, kw) in zip(futs, jobs):
@@ -228,7 +244,8 @@ def run(ctx):
         c["tree"] = True   # also chunked with MinHeadingLevel 1, 2, 4, 5, 6
     for c in tree["cases"] + skip["cases"]:
         c["lean"] = True   # one-word paragraphs: the size presets add nothing
-    for c in gen["cases"] + lists["cases"] + bound["cases"] + tree["cases"] + skip["cases"] + hollow["cases"] + sim["cases"]:
+    ctx.extra["cases_repeated_texts"] = len(repeat)
+    for c in gen["cases"] + lists["cases"] + bound["cases"] + tree["cases"] + skip["cases"] + hollow["cases"] + repeat + sim["cases"]:
         k = json.dumps([c["doc"], c["pages"]])
         if k not in seen:
             seen.add(k)
